@@ -307,7 +307,7 @@ let conc_case (tree : string) (explicit : bool) (plan : string) (obs : string) :
       | _ -> ()) events;
   let nparts = List.length fl in
   let v =
-    if not !leaf_hyp_ok then "BAD:leaf-offsets-not-monotone-or-beyond-duration"
+    if not !leaf_hyp_ok then leaf_bad ()
     else if String.length obs_sum >= 5 && String.sub obs_sum 0 5 = "tbl=0" then "ok"
     else if obs = "hang" then "BAD:hang"
     else if !bad <> "" then "BAD:" ^ !bad
@@ -370,7 +370,7 @@ let race_case ?(self = false) (tree : string) (obs : string) : string * string *
     | Panic k -> "Pctor:" ^ pk k
     | OutOfFuel -> "fuel" in
   let v =
-    if not !leaf_hyp_ok then "BAD:leaf-offsets-not-monotone-or-beyond-duration"
+    if not !leaf_hyp_ok then leaf_bad ()
     else if obs = spec then "ok"
     else begin
       let a = Array.of_list (split_blank obs) and b = Array.of_list (split_blank spec) in
@@ -423,7 +423,7 @@ let urace_case (tree : string) (g : int) (per : int) (obs : string) : string * s
         (g * per - nf)
     end in
   let v =
-    if not !leaf_hyp_ok then "BAD:leaf-offsets-not-monotone-or-beyond-duration"
+    if not !leaf_hyp_ok then leaf_bad ()
     else if obs = spec then "ok"
     else begin
       let b = Array.of_list (split_blank spec) in
